@@ -378,6 +378,12 @@ func checkCmp(c *facet.Ctx, in NumPair) error {
 			want = true
 		case cmp == 0 && textEq:
 			want = true
+		case cmp == 0 && af.IsInt() && bf.IsInt():
+			// one whole number held at two precisions: whole numbers compare
+			// by value (CHANGELOG 1.10.0: no change for integers), whatever
+			// their shortest decimal texts look like
+			want = true
+			c.Label("tie:identical-whole-different-text")
 		case cmp == 0:
 			// numerically identical but held at precisions whose canonical
 			// decimal texts differ: whether cty calls them equal is an
